@@ -22,7 +22,7 @@ def legacy_scripts(r, coin):
 
 def hook_merkle(ctx, r):
     reqs = [""]
-    for n in list(range(1, 65)) + [r.randrange(65, 600) for _ in range(ctx.n(6, 60))] + [127, 128, 129, 255, 256, 257]:
+    for n in list(range(1, 200)) + [r.randrange(200, 600) for _ in range(ctx.n(6, 60))] + [255, 256, 257, 258, 260, 264, 272, 288, 320, 321, 384, 385, 511, 512, 513]:
         reqs.append(" ".join(GC.rb(r, 32).hex() for _ in range(n)))
     impl = ctx.hook("merkle", reqs)
     model = ctx.model("merkle", reqs)
@@ -54,7 +54,7 @@ def correspondence(ctx):
     scns = []
     for i in range(ctx.n(30, 300)):
         coin = K.COINS[i % 8]
-        ntx = r.choice([0, 1, 2, 3, 4, 6, 7, 8, 15, 16, 17, 31, 33, 64, 100] + ([257, 600] if ctx.thorough() else []))
+        ntx = r.choice([0, 1, 2, 3, 4, 6, 7, 8, 15, 16, 17, 31, 33, 64, 100, 65, 66, 68, 72, 80, 96, 127, 128, 129, 130, 192, 193] + ([257, 600, 1025] if ctx.thorough() else []))
         n = r.randrange(2, 7)
         blocks = GC.gen_chain(r, coin, n, max_txs=1, big=ntx, max_io=2, genesis=gen.get(coin) if i % 2 == 0 else None)
         s = K.Scenario(coin=coin, callback=r.choice(["csvdump", "csvdump", "balances"]), verify=True)
@@ -147,6 +147,23 @@ def correspondence(ctx):
         s.meta = {"flip": "%d.%d" % (p, bit)}
         scns.append(s)
     must_fail_at(ctx, "bit-flip", scns, lambda s: target)
+    # the FIRST processed block of a run that starts above 0: its prev-hash is checked against the indexed hash of height start-1
+    scns = []
+    for st in (1, 2, 3):
+        for bit in ([(4 + i // 8, i % 8) for i in range(256)] if ctx.thorough() else [(4, 0), (35, 7), (20, 3)] + [(4 + r.randrange(32), r.randrange(8)) for _ in range(ctx.n(5, 0))]):
+            s = K.Scenario(coin=coin, callback=r.choice(["csvdump", "balances"]), verify=True, start=st)
+            GC.simple_layout(s, blocks)
+            raw_st = blocks[st].enc()
+            name = K.blkname(0)
+            segs = s.files[name]["segs"]
+            for k, (off, data) in enumerate(segs):
+                if data[8:] == raw_st:
+                    d = bytearray(data)
+                    d[8 + bit[0]] ^= 1 << bit[1]
+                    segs[k] = (off, bytes(d))
+            s.meta = {"flip-first": "%d %d.%d" % (st, bit[0], bit[1])}
+            scns.append(s)
+    must_fail_at(ctx, "bit-flip-first-processed", scns, lambda s: s.start)
     # the same on the LAST processed block — the tip of the chain, or height `--end` — where a flip that enlarges a count or a
     # length makes the parser run into the end of the file: that, too, is a failure of this run, never `no more blocks`
     for last_kind in ("tip", "end"):
